@@ -184,6 +184,19 @@ def count_status(repo, canon, f, expr):
                             for a, b in ((l, r), (r, l)):
                                 if isinstance(a, ast.Attribute) and a.attr == 'status':
                                     return 'count(status == %s)' % ast.unparse(b)
+    # the counting expression written in place (or left there by inlining the query)
+    from ..norm import COUNT_INFO
+    try:
+        a = affine(canon, expr, Frame(f))
+    except RecursionError:
+        return None
+    ks = [k for k in a.terms if k in COUNT_INFO]
+    if len(ks) == 1 and len(a.terms) == 1 and a.terms[ks[0]] == 1 and a.const == 0:
+        it, lits = COUNT_INFO[ks[0]]
+        if it == 'Instrument.observations' and len(lits) == 1 and lits[0].pol:
+            m_ = re.fullmatch(r'(\S+) == \$1\.status', lits[0].atom) or re.fullmatch(r'\$1\.status == (\S+)', lits[0].atom)
+            if m_:
+                return 'count(status == %s)' % m_.group(1)
     return None
 
 
